@@ -64,13 +64,6 @@ Definition corr (c : case) : Z :=
 Definition clause (c : case) : bool :=
   otext_eqb (option_map inspect (spec_call (c_call c))) (c_impl c).
 
-(* known class K1: list.index on an argument list compares the whole argument list with the value *)
-Definition known_K1 (c : case) : bool :=
-  match c_call c with
-  | CIndex (VArgs _) _ => true
-  | _ => false
-  end.
-
 Definition b2z (b : bool) : Z := if b then 1%Z else 0%Z.
 Definition run (c : case) : list Z :=
-  [ corr c; b2z (clause c); (if known_K1 c then 1 else 0)%Z ].
+  [ corr c; b2z (clause c); 0%Z ].
